@@ -8,7 +8,12 @@
      queue, stack, grow), C10.history_refines (vector), and `stored_bytes_exact` below.
   2. Independence from the caller's buffers and of returned copies is a fact about addresses;
      in the value-semantic models it holds by construction (a model state contains values, not
-     pointers into caller memory).  It is tied to the code by this property's correspondence:
+     pointers into caller memory).  The address-level statement is proved in `Props/C12Mem.lean`
+     on the block heap of `Mem/Model.lean` with the copy discipline of the code transcribed in
+     `Mem/Copy.lean`: `owned_disjoint`, `noninterference`, `copy_survives`, `nocopy_aliases`,
+     `release_frees_all`, for all interleavings of library calls and caller scribbles/frees.
+     That the C code follows the discipline at each call site is tied by this property's
+     correspondence:
      the harnesses overwrite and free the caller's key and value buffers immediately after every
      put/add/push, and keep EVERY copy handed out by a copying accessor together with a private
      duplicate, re-comparing them after later replace/remove/clear and after the container has
@@ -17,6 +22,7 @@
 import QlibcModel.Props.C01
 import QlibcModel.Props.C09
 import QlibcModel.Props.C10
+import QlibcModel.Props.C12Mem
 
 namespace Qlibc.Props.C12
 open Qlibc Qlibc.Tree Qlibc.Tree.T
